@@ -277,7 +277,7 @@ def main(argv=None):
                         sz['complete'] = False
                     else:
                         fr = sorted(r['frontier'], key=len)
-                        nchunk = max(1, min(len(fr), 4))
+                        nchunk = max(1, min(len(fr), 12))
                         for i in range(nchunk):
                             submit(dict(t, prefixes=fr[i::nchunk], profile=False), nxt)
             pending = nxt
